@@ -5,8 +5,11 @@ patch=$(readlink -f "$1"); tier=$2; shift 2
 cd /repo || exit 2
 if [ -n "$(git status --porcelain)" ]; then echo "/repo is not clean"; exit 2; fi
 if ! git apply --check "$patch" 2>/dev/null; then echo "patch does not apply: $patch"; exit 2; fi
+# evidence files are rewritten by every run: keep the ones from the unchanged tree and put them back afterwards
+bak=$(mktemp -d /tmp/verif-evbak-XXXXXX)
+cp /verif/evidence/*.json "$bak"/ 2>/dev/null
 git apply "$patch"
-trap 'git -C /repo checkout -- . ; git -C /repo clean -fdq' EXIT
+trap 'git -C /repo checkout -- . ; git -C /repo clean -fdq; cp "$bak"/*.json /verif/evidence/ 2>/dev/null; rm -rf "$bak"' EXIT
 for id in "$@"; do
   out=$(cd /verif && ./check $id $tier 2>&1); code=$?
   case $code in
